@@ -213,10 +213,13 @@ def truncation_items(r, framer, fc, uid, size):
     return [("trunc@%d/fc%d" % (k, fc), [L.frame(framer, r.randrange(65536), uid, pdu[:k])]) for k in range(1, len(pdu))]
 
 
-def run_session(r, fe, framer, hostile_kinds, tier, trunc_fc=None):
+def run_session(r, fe, framer, hostile_kinds, tier, trunc_fc=None, wd=None):
     """-> dict(ladder=[Case], store=Case|None, probe=Case|None, py=[python-side failure descs], keys=[...])"""
     spec = ctx_specs(r)
     cfg = {"broadcast_enable": r.random() < 0.3, "ignore_missing_slaves": r.random() < 0.3}
+    script = []
+    if wd is not None:
+        wd.update(fe=fe, framer=framer, ctx=spec, cfg=cfg, script=script)
     run = L.Run(fe, framer, spec, cfg)
     out = {"ladder": [], "store": None, "probe": None, "py": [], "keys": []}
     try:
@@ -250,6 +253,7 @@ def run_session(r, fe, framer, hostile_kinds, tier, trunc_fc=None):
             items.append(("empty", [b""]))
         for kind, chunks in items:
             for ch in chunks:
+                script.append(ch.hex() if isinstance(ch, (bytes, bytearray)) else repr(ch))
                 sf = OSError(32, "broken pipe") if kind == "sendfault" else None
                 obs = run.feed(cid, ch, send_fault=sf) if sf is not None else run.feed(cid, ch)
                 if not isinstance(ch, BaseException):
@@ -321,6 +325,7 @@ def run_session(r, fe, framer, hostile_kinds, tier, trunc_fc=None):
             pcid = cid      # the one line; its framer is in its initial/reset state here
         else:
             run.open(pcid)
+        script.append("probe:" + probe.hex())
         pobs = run.feed(pcid, probe)
         answer = [bytes(o) for o in pobs.out]
         expect_pdu = L.expected_read_response_pdu(3, vals)
@@ -359,22 +364,29 @@ _CACHE = {}
 
 
 class watchdog:
-    """hard per-session limit: a handler that never returns (a loop that no longer terminates) must not
-    hang the check — report it as a broken tie and leave"""
+    """hard per-session limit.  A front-end that does not return from handle()/data_received()/
+    dataReceived() on some input stops serving: that IS a C12 violation, and the bytes fed so far (the
+    last one being the input it hangs on) are the failing input.  `what` is updated by the session as it
+    goes (`script`: hex chunks / exception reprs in feeding order, plus front-end, framer, context, flags),
+    so the replay file can be re-run with `./check Cxx --replay <file>` (in a child process, under a
+    timeout)."""
 
-    def __init__(self, pid, what, seconds=60):
-        self.pid, self.what, self.seconds = pid, what, seconds
+    def __init__(self, pid, what, seconds=None):
+        import os
+        self.pid, self.what = pid, what
+        self.seconds = seconds or int(os.environ.get("VERIF_WATCHDOG_S", "60"))
 
     def _fire(self):
         import os
         import sys
         import faulthandler
         from lib import main as M
-        path = M.write_replay(self.pid, {"property": self.pid, "verdict": "no-failing-input-found", "seed": common.seed(),
-                                         "no_longer_checks": [{"kind": "watchdog", "detail": "a front-end did not return "
-                                                               "within %ss" % self.seconds, "session": self.what}]})
+        path = M.write_replay(self.pid, {"property": self.pid, "verdict": "failing-input", "seed": common.seed(),
+                                         "failing": [{"suite": "watchdog", "case": dict(self.what, watchdog_s=self.seconds),
+                                                      "how": "a front-end did not return within %ss on the last input of "
+                                                             "`script`: it has stopped serving" % self.seconds}]})
         faulthandler.dump_traceback(file=sys.stderr)
-        print("VIOLATION property=%s replay=%s no-failing-input-found" % (self.pid, path), flush=True)
+        print("VIOLATION property=%s replay=%s" % (self.pid, path), flush=True)
         os._exit(1)
 
     def __enter__(self):
@@ -402,8 +414,9 @@ def build(tier):
             for _ in range(per_pair):
                 hks = [HOSTILE_KINDS[(hk_i + j) % len(HOSTILE_KINDS)] for j in range(nh)]
                 hk_i += nh
-                with watchdog("C12", {"fe": fe, "framer": framer, "hostile_kinds": hks}):
-                    s = run_session(r, fe, framer, hks, tier)
+                wd = {"hostile_kinds": hks}
+                with watchdog("C12", wd):
+                    s = run_session(r, fe, framer, hks, tier, wd=wd)
                 ladder += s["ladder"]
                 if s["store"] is not None:
                     store.append(s["store"])
@@ -417,8 +430,9 @@ def build(tier):
         for framer in ("socket", "ascii", "binary", "tls"):
             for fc in (15, 16, 23, 21):
                 for _ in range(1 if tier == "quick" else 4):
-                    with watchdog("C12", {"fe": fe, "framer": framer, "trunc_fc": fc}):
-                        s = run_session(r, fe, framer, [], tier, trunc_fc=fc)
+                    wd = {"trunc_fc": fc}
+                    with watchdog("C12", wd):
+                        s = run_session(r, fe, framer, [], tier, trunc_fc=fc, wd=wd)
                     ladder += s["ladder"]
                     if s["store"] is not None:
                         store.append(s["store"])
@@ -539,9 +553,49 @@ def replay_finding(f):
     return None
 
 
+def feed_script(desc):
+    """re-run a recorded byte script (used in a child process for watchdog replays)"""
+    run = L.Run(desc["fe"], desc.get("framer", "socket"), desc["ctx"], desc.get("cfg", {}))
+    try:
+        cid = 0
+        run.open(cid)
+        for h in desc["script"]:
+            if h.startswith("probe:"):
+                cid += 1000
+                run.open(cid)
+                item = bytes.fromhex(h[6:])
+            else:
+                try:
+                    item = bytes.fromhex(h)
+                except ValueError:
+                    item = socket.timeout("timed out") if "imeout" in h else OSError(104, "reset by peer")
+            o = run.feed(cid, item)
+            if o.action() in ("Stop", "StopReset", "CloseTransport", "Escape") and desc["fe"] in ("SyncTcp", "AioTcp"):
+                cid += 1
+                run.open(cid)
+    finally:
+        run.close()
+
+
+def replay_hang(module, desc):
+    """True when re-feeding the script still does not return (child process killed after the limit)"""
+    import json
+    import subprocess
+    import sys
+    code = ("import sys, json, logging; logging.disable(logging.CRITICAL); from props import %s as m; "
+            "m.feed_script(json.loads(sys.argv[1]))" % module)
+    try:
+        p = subprocess.run([sys.executable, "-c", code, json.dumps(desc)], timeout=desc.get("watchdog_s", 60) + 5)
+        return p.returncode != 0
+    except subprocess.TimeoutExpired:
+        return True
+
+
 def replay_case(suite, desc):
     import json
     print(json.dumps(desc)[:3000])
+    if suite == "watchdog":
+        return replay_hang("c12", desc)
     if "fe" not in desc:
         return True
     spec, cfg = desc["ctx"], desc.get("cfg", {})
